@@ -146,7 +146,15 @@ impl<R: Read, W: Write, M: Matcher> FrameCompressor<R, W, M> {
             single_segment: false,
             content_checksum: cfg!(feature = "hash"),
             dictionary_id: None,
-            window_size: Some(self.state.matcher.window_size()),
+            // A block may be as large as a space the matcher hands out (up to 128 KiB) whatever
+            // window the matcher searches in, and no block may exceed the declared window
+            // (Block_Maximum_Size = min(Window_Size, 128 KiB)): declare at least 128 KiB.
+            window_size: Some(
+                self.state
+                    .matcher
+                    .window_size()
+                    .max(u64::from(crate::common::MAX_BLOCK_SIZE)),
+            ),
         };
         header.serialize(output);
         // Now compress block by block
